@@ -52,6 +52,7 @@ class _Path:
         self.unknown_branches = 0
         self.max_decisions = opts.get("max_decisions", 4000)
         self.extra = []          # lazily-added axioms (z3 terms), only used for obligations
+        self.gave_up = set()
         self.known = {}          # ast id -> (term, bool): conditions already decided on this path
 
     # -- solver helpers
@@ -387,6 +388,7 @@ class Ctx:
     def check(self, name, cond, detail=None):
         """State an obligation."""
         from .num import Sym, _blift
+        cond = _unwrap0(cond)
         if self.mode == "concrete":
             ok = bool(cond)
             self.reached.append(name)
@@ -405,6 +407,19 @@ class Ctx:
         if p.poisoned:
             self.obligations.append((name, "poisoned", None))
             return True
+        dl = p.opts.get("deadline")
+        if dl is not None and time.time() > dl:
+            self.obligations.append((name, "unknown", "check deadline exceeded"))
+            return True
+        if name in p.gave_up:
+            self.obligations.append((name, "unknown", "skipped after an earlier unknown on this path"))
+            return True
+        # cheap falsification: the model that steered this path may already violate t
+        if p.model is not None and not p.uf_apps:
+            v = p.model.eval(t, model_completion=True)
+            if z3.is_false(v):
+                self.obligations.append((name, "sat", self._model_values(p.model, detail)))
+                return False
         p.s.push()
         try:
             p.s.add(z3.Not(t))
@@ -419,7 +434,13 @@ class Ctx:
             if r == z3.unsat:
                 self.obligations.append((name, "unsat", None))
                 return True
-            self.obligations.append((name, "unknown", str(p.s.reason_unknown())))
+            reason = str(p.s.reason_unknown())
+            m = _falsify_by_sampling(p, self)
+            if m is not None:
+                self.obligations.append((name, "sat", self._model_values(m, detail)))
+                return False
+            p.gave_up.add(name)
+            self.obligations.append((name, "unknown", reason))
             return True
         finally:
             p.s.pop()
@@ -431,11 +452,39 @@ class Ctx:
     def close(self, a, b, rel=1e-9, abs_=1e-12):
         """a == b (exact in symbolic mode, with float tolerance in concrete mode)."""
         from .num import Sym
+        a, b = _unwrap0(a), _unwrap0(b)
         if self.mode == "concrete":
             a, b = float(a), float(b)
             return abs(a - b) <= max(rel * max(abs(a), abs(b)), abs_)
         r = (a == b)
         return r if isinstance(r, Sym) else bool(r)
+
+    def real_array(self, name, shape, **k):
+        """numpy array of symbolic (object dtype) or concrete (float) reals."""
+        import numpy as np
+        from .arr import SymArray
+        shape = (shape,) if isinstance(shape, int) else tuple(shape)
+        n = 1
+        for d in shape:
+            n *= d
+        els = [self.real("%s%d" % (name, i), **k) for i in range(n)]
+        if self.mode == "concrete":
+            if k.get("exact"):
+                a = np.empty(n, dtype=object)
+                a[:] = els
+                return a.reshape(shape)
+            return np.array(els, dtype=float).reshape(shape)
+        a = np.empty(n, dtype=object)
+        for i, e in enumerate(els):
+            a[i] = e
+        return a.reshape(shape).view(SymArray)
+
+    def le(self, a, b, rel=1e-9, abs_=1e-12):
+        """a <= b (with float slack in concrete mode)."""
+        if self.mode == "concrete":
+            a, b = float(a), float(b)
+            return a <= b + max(rel * max(abs(a), abs(b)), abs_)
+        return a <= b
 
     def note(self, *a):
         self.notes.append(" ".join(str(x) for x in a))
@@ -445,6 +494,38 @@ class Ctx:
         for k, t in self.path.inputs.items():
             vals[k] = _pyval(m.eval(t, model_completion=True))
         return {"inputs": vals, "detail": detail}
+
+
+def _falsify_by_sampling(p, ctx, tries=24):
+    """The solver could not decide `pc AND NOT ob` (already asserted in the current frame).
+    Fix every declared input to a pseudo-random small value: the query becomes ground and is
+    answered at once.  A hit is a genuine model (it is replayed like any other)."""
+    import random
+    rnd = random.Random(12345 + len(p.decisions))
+    ints = [-3, -2, -1, 0, 1, 2, 3, 5, 7, 10, 100]
+    for k in range(tries):
+        p.s.push()
+        try:
+            for name, t in p.inputs.items():
+                if z3.is_int(t):
+                    p.s.add(t == rnd.choice(ints))
+                elif z3.is_real(t):
+                    num = rnd.choice([-7, -5, -3, -2, -1, 1, 2, 3, 5, 7, 11, 13])
+                    den = rnd.choice([1, 1, 2, 3, 4, 5, 8, 10])
+                    p.s.add(t == z3.RealVal(num) / den)
+                # Booleans are left to the solver
+            r = p.check()
+            if r == z3.sat:
+                return p.s.model()
+        finally:
+            p.s.pop()
+    return None
+
+
+def _unwrap0(x):
+    if hasattr(x, "ndim") and hasattr(x, "dtype") and x.ndim == 0:
+        return x[()]
+    return x
 
 
 def _pyval(v):
@@ -610,6 +691,8 @@ def close_pool():
 def explore(hnames, tier="quick", opts=None, time_budget=None, serial=False):
     """Explore all cases of the given harnesses; returns an aggregate dict per harness."""
     opts = dict(opts or {})
+    if time_budget and "deadline" not in opts:
+        opts["deadline"] = time.time() + time_budget
     agg = {}
     work = []
     for hn in hnames:
@@ -639,7 +722,14 @@ def explore(hnames, tier="quick", opts=None, time_budget=None, serial=False):
     inflight = []
     queue = list(work)
 
+    nproc = pl._processes
+
     def submit(item):
+        if len(queue) + len(inflight) < 3 * nproc:
+            o = dict(item[4])
+            o["chunk_paths"] = min(o.get("chunk_paths", 64), 6)
+            o["chunk_seconds"] = min(o.get("chunk_seconds", 20.0), 3.0)
+            item = item[:4] + (o,) + item[5:]
         inflight.append((item, pl.apply_async(_explore, (item,))))
     while queue or inflight:
         over = time_budget and time.perf_counter() - t0 > time_budget
@@ -657,7 +747,7 @@ def explore(hnames, tier="quick", opts=None, time_budget=None, serial=False):
                 key, res = ar.get()
                 _merge(agg, key, res)
                 for pre in res["leftover"]:
-                    queue.append((item[0], item[1], item[2], pre, opts, tier))
+                    queue.insert(0, (item[0], item[1], item[2], pre, opts, tier))
             else:
                 still.append((item, ar))
         inflight = still
